@@ -192,7 +192,8 @@ def generate(rng, tier, idx):
                     # earlier calls on the SAME loader (what `gemato verify` does before verifying: find_timestamp;
                     # or lookups of other paths) must not let unverified Manifests in
                     pr['pre'] = rng.sample(['find_timestamp', 'find_timestamp', 'lookup:' + rng.choice(plist), 'dist:' + dirs[rng.randrange(len(dirs))],
-                                            'dirlm:' + dirs[rng.randrange(len(dirs))], 'dirlm:'],
+                                            'dirlm:' + dirs[rng.randrange(len(dirs))], 'dirlm:',
+                                            'dirkg:' + dirs[rng.randrange(len(dirs))], 'dirkg:'],
                                            rng.choice([1, 1, 2]))
                 probes.append(pr)
     for d in dirs[1:]:
@@ -286,6 +287,9 @@ def execute(sc):
                                 # an incremental directory check (files not newer than last_mtime keep their size-only
                                 # check) earlier on this loader
                                 m.assert_directory_verifies(pre[6:], last_mtime=2.0**33)
+                            elif pre.startswith('dirkg:'):
+                                # a keep-going directory check (handler returns instead of raising) earlier on this loader
+                                m.assert_directory_verifies(pre[6:], fail_handler=lambda e_: False)
                         except Exception:
                             pass
                     if op.get('pre'):
